@@ -145,6 +145,7 @@ const TypesSchema = `module types { namespace "urn:types"; prefix t; revision 0;
     leaf-list lb { type boolean; }
     leaf-list ld { type decimal64 { fraction-digits 2; } }
     leaf-list lu { type uint64; }
+    leaf en { type enumeration { enum "1" { value 2; } enum "2" { value 1; } enum "x" { value 7; } } }
     leaf lr { type leafref { path "../i8"; } }
     leaf lre { type leafref { path "../e"; } }
     leaf-list llr { type leafref { path "../s"; } }
